@@ -545,7 +545,11 @@ NOINST time_t __wrap_time(time_t *t) {
 NOINST int __wrap_usleep(unsigned int us) {
 	switch (hx_role) {
 	case ROLE_RECEIVER: bus_receiver_idle_wait(); return 0;
-	case ROLE_AUTOFLUSH: __real_usleep(us > 1000 ? 1000 : us); return 0;
+	case ROLE_AUTOFLUSH: {
+		/* the requested period is part of the session's behaviour (it comes from the flush_interval argument): recorded whenever it changes */
+		static __thread unsigned last_us = 0xFFFFFFFFu;
+		if (us != last_us) { last_us = us; ev("\"e\":\"afsleep\",\"us\":%u", us); }
+		__real_usleep(us > 1000 ? 1000 : us); return 0; }
 	case ROLE_HEARTBEAT: __real_usleep(us > 1000 ? 1000 : us); return 0;
 	case ROLE_HARNESS: return __real_usleep(us);
 	default: {
